@@ -679,8 +679,8 @@ pub fn gen_string(rng: &mut Rng) -> String {
     let n = match rng.below(12) {
         0 => 0,
         1 => 1,
-        2 => 10_000,
-        _ => rng.range(1, 40) as usize,
+        2 if !cfg!(miri) => 10_000,
+        _ => rng.range(1, if cfg!(miri) { 10 } else { 40 }) as usize,
     };
     let mut s = String::new();
     for _ in 0..n {
@@ -897,7 +897,7 @@ pub fn run(rep: &mut Report, histories: u64, replay: Option<u64>) {
     crate::util::install_quiet_panic_hook();
     let results = crate::util::par_map(seeds.len() as u64, |i| {
         let s = seeds[i as usize];
-        (s, std::panic::catch_unwind(|| run_history(s, 60)).map_err(|p| (crate::util::panic_message(&p), crate::util::short_loc(&crate::util::last_panic_loc()))))
+        (s, std::panic::catch_unwind(|| run_history(s, if cfg!(miri) { 14 } else { 60 })).map_err(|p| (crate::util::panic_message(&p), crate::util::short_loc(&crate::util::last_panic_loc()))))
     });
     for (s, r) in results {
         match r {
